@@ -10,7 +10,7 @@ func (p *SexpComment) SexpString(ps *PrintState) string {
 }
 
 func (p *SexpComment) Type() *RegisteredType {
-	return GoStructRegistry.Registry["comment"]
+	return GoStructRegistry.Builtin["comment"]
 }
 
 // Filters return true to keep, false to drop.
